@@ -29,9 +29,12 @@ def gen(rng, tier):
     n_cases = 40 if tier == "quick" else 400
     for k in range(n_cases):
         if k % 2 == 0:
-            spec = MU.gen_mirp(rng, "quick")
-            spec["order"] = ["TRAVEL", "EXIT", "ENTRY"]
-            spec["horizon"] = fs(min(Fraction(spec["horizon"]), Fraction(10)))
+            if k % 4 == 0:
+                spec = small_mirp(rng)      # mostly integer data: all three getters (incl. the arc heuristic) succeed
+            else:
+                spec = MU.gen_mirp(rng, "quick")
+                spec["order"] = ["TRAVEL", "EXIT", "ENTRY"]
+                spec["horizon"] = fs(min(Fraction(spec["horizon"]), Fraction(10)))
             yield dict(mode="mirp", spec=spec, strict=rng.random() < 0.5,
                        plain_first=[f for f in ("arc", "path", "seq") if rng.random() < 0.4])
         else:
@@ -40,19 +43,23 @@ def gen(rng, tier):
 
 
 def small_mirp(rng):
-    """a MIRP small enough that all three formulations (incl. the sequence-based one) stay below ~1000 variables"""
+    """a MIRP small enough that all three formulations (incl. the sequence-based one) stay below ~1000 variables; integer data in two of
+    three cases, so that every arrival time is on the arc-based integer grid and the arc heuristic can succeed"""
     size = Fraction(rng.choice([1, 2]))
+    integral = rng.random() < 0.67
     ports = []
     for kind in ("S", "D"):
-        rate = Fraction(rng.choice([1, 1, 2]), 2)
-        cap = size + Fraction(rng.randint(0, 4), 2)
-        init = Fraction(rng.randint(0, int(cap * 2)), 2)
+        rate = Fraction(1) if integral else Fraction(rng.choice([1, 1, 2]), 2)
+        cap = size + (Fraction(rng.randint(0, 2)) if integral else Fraction(rng.randint(0, 4), 2))
+        init = Fraction(rng.randint(0, int(cap))) if integral else Fraction(rng.randint(0, int(cap * 2)), 2)
         ports.append(dict(name=f"{kind}1", init=fs(init), rate=fs(rate if kind == "S" else -rate), cap=fs(cap)))
     if rng.random() < 0.5:
         ports.reverse()
-    return dict(size=fs(size), horizon=fs(Fraction(rng.randint(6, 11), 2)), ports=ports, dist={"S1,D1": fs(Fraction(rng.choice([1, 2])))},
+    hor = Fraction(rng.randint(3, 5)) if integral else Fraction(rng.randint(6, 11), 2)
+    return dict(size=fs(size), horizon=fs(hor), ports=ports, dist={"S1,D1": fs(Fraction(rng.choice([1, 2])))},
                 speed="1", unit=fs(Fraction(rng.randint(0, 4), 2)), sfee={"S1": fs(Fraction(rng.randint(0, 4), 2))},
-                dfee={"D1": fs(Fraction(rng.randint(5, 9), 2))}, exit=["0", "0"], entry=[fs(Fraction(rng.randint(2, 8), 2)), "0", "0"],
+                dfee={"D1": fs(Fraction(rng.randint(5, 9), 2))}, exit=["0", "0"],
+                entry=[fs(Fraction(rng.randint(1, 4)) if integral else Fraction(rng.randint(2, 8), 2)), "0", "0"],
                 order=["TRAVEL", "EXIT", "ENTRY"])
 
 
@@ -133,6 +140,8 @@ def run_case(case, drv):
                 if form in objs and MU.graph_state(objs[form].vrptw) != snap0["v"]["g"]:
                     changed_any = True
         res.features.append(f"outcomes:{'-'.join(sorted(set(p[0][0] for p in prints.values())))}")
+        for f_, p_ in prints.items():
+            res.features.append(f"getter-{f_}:{'ok' if p_[0][0] == 'ok' else 'raised'}")
         res.nontrivial = changed_any
         return res
 
